@@ -191,7 +191,7 @@ def mk_events(rng, boundary):
         h = "&".join(hs(k) + "=" + hs(v) for k, v in hdrs) if hdrs else "[]"
         evs.append(("U:" + hs(name) + ":" + hs(fn) + ":" + h) if fn is not None else ("F:" + hs(name) + ":" + h))
         # chunk the payload into Data events
-        lo = 0 if rng.random() < 0.05 else 1
+        lo = 0 if rng.random() < 0.3 else 1
         cuts = sorted(set(rng.randrange(lo, len(payload) + 1) for _ in range(rng.choice([0, 0, 1, 2])))) if payload else []
         pieces, prev = [], 0
         for c in cuts:
@@ -225,20 +225,6 @@ def to_event(s):
     return Epilogue(unhx(k[1]))
 
 
-def empty_first_chunk(evs):
-    """family of finding F02a: the first Data event of a part is empty and a non-empty one follows"""
-    for i, e in enumerate(evs):
-        if e[:2] in ("F:", "U:") and i + 2 < len(evs) and evs[i + 1].startswith("D:-:") and evs[i + 2].startswith("D:") and not evs[i + 2].startswith("D:-:"):
-            return True
-        if e[:2] in ("F:", "U:"):
-            j = i + 1
-            while j < len(evs) and evs[j].startswith("D:-:"):
-                j += 1
-            if j > i + 1 and j < len(evs) and evs[j].startswith("D:"):
-                return True
-    return False
-
-
 class EncoderEvents(Stream):
     name = "encoder-events"
 
@@ -246,7 +232,7 @@ class EncoderEvents(Stream):
         self.corpus = [
             {"b": hx(b"b"), "evs": ["P:-", "F:" + hs("a") + ":[]", "D:" + hx(b"abc") + ":0", "E:-"], "valid": True},
             {"b": hx(b"b"), "evs": ["F:" + hs("a") + ":[]", "D:-:0", "U:" + hs("f") + ":" + hs("x.txt") + ":[]", "D:" + hx(b"\r\n--b-") + ":0", "E:-"], "valid": True},
-            # F02a: empty first Data chunk followed by data
+            # F02a regression (fixed by d57c0c6): empty first Data chunk followed by data
             {"b": hx(b"b"), "evs": ["P:-", "F:" + hs("a") + ":[]", "D:-:1", "D:" + hx(b"abc") + ":0", "E:-"], "valid": True},
             # state errors
             {"b": hx(b"b"), "evs": ["D:" + hx(b"x") + ":0"], "valid": False},
@@ -310,9 +296,6 @@ class EncoderEvents(Stream):
             if gh != whl:
                 return f"headers differ: {gh} vs {whl}"
         return None
-
-    def finding_key(self, case, what):
-        return "F02a" if empty_first_chunk(case["evs"]) else None
 
     def bucket(self, case, real_out):
         if real_out.startswith("EXC"):
@@ -419,7 +402,6 @@ CHECK = Check(
         "UTF-8 is Lean core's encoder / strict decoder (round trip proved in Util/Bytes.lean); lone surrogates are outside the domain (Python str may hold them, List Char cannot)",
         "parse_options_header is modelled in Model/FormOptions.lean (token / quoted parameters, RFC 2231 numbered continuations); the charset form key*=… is outside the model",
         "mimetypes.guess_type, SpooledTemporaryFile spooling and the random boundary of stream_encode_multipart are not modelled; EnvironBuilder -> Request is covered by the stream oracle only",
-        "known finding F02a: an empty first Data event followed by a non-empty one makes MultipartEncoder omit the blank line (not produced by stream_encode_multipart)",
     ],
     trusted_extra=["CPython urllib.parse / codecs error-handler protocol for the modelled primitives (validated by stream urlencode-kernels, not verified)"],
     quick_budget=20000,
@@ -428,7 +410,7 @@ CHECK = Check(
 
 MANIFEST = {
     "level_text": "Machine-checked Lean 4 theorems about executable models of quote_plus/urlencode/unquote/parse_qsl (safe set regenerated from werkzeug.urls._urlencode by AST), of parse_options_header and of MultipartEncoder/MultipartDecoder: percent-encoding round trips for every byte string, parse_qsl(urlencode(items)) = items for every list of Unicode pairs, Content-Disposition name/filename come back exactly, and decode(encode(parts)) = parts for every boundary, every list of valid parts and every chunking of the encoded body; models tied to the code by differential streams, the encode->parse oracle runs on the real encoder, test client and parsers.",
-    "level_note": "Trusted: Lean kernel; extract.py; harness; CPython urllib/codecs for modelled primitives. FileStorage / charset / test-client layers above the decoder are covered by the correspondence + oracle streams. Known finding F02a (encoder, empty first Data chunk).",
+    "level_note": "Trusted: Lean kernel; extract.py; harness; CPython urllib/codecs for modelled primitives. FileStorage / charset / test-client layers above the decoder are covered by the correspondence + oracle streams.",
     "technique": "Lean 4 proof (induction over byte lists / item lists, decide over generated tables) + model/code correspondence",
     "design_ref": "DESIGN.md section 4, C02",
 }
